@@ -16,6 +16,9 @@
   `Hist β` (bytes tagged by their history are the instance `β = Id × Nat`), the driver
   instantiates `β = UInt8`.
 
+  A live leader: `Leader.tail` are stream bytes its input appends while a stream reader
+  of the session is open; everything else about the leader is fixed during a session.
+
   Interruption: the transport delivers at most `cut` messages in a session and then
   every `Recv` fails; `lost` trailing bytes that were received but still sat in the
   follower's pipe when its writer was closed are dropped (the code closes the AOF
@@ -33,6 +36,7 @@
   Core Lean only.
 -/
 import GunYu.Basic.Bytes
+import GunYu.Gen.ReplicaConsts
 
 namespace GunYu.Replica
 open GunYu
@@ -310,7 +314,8 @@ def aofWrite (F : Store β) (left : Nat) (p : List β) : Option (Store β) :=
     if d.right = left then some (F.setCur (some { d with bytes := d.bytes ++ p }))
     else none
 
-def tenMB : Int := 10 * 1024 * 1024
+/-- `gap > 10*1024*1024` in preSync, regenerated from the source -/
+def tenMB : Int := Gen.replicaGapClear
 
 /-- adopt the leader's run id `lid` when the local copy is not known to continue it
     (repaired: a copy held under another run id is deleted, not relabelled) -/
